@@ -4,7 +4,7 @@ from common import *
 from mirsym import mir as M, enums as E
 
 MIR_TARGET = os.path.join(CACHE, 'mir-target')
-CRATES = {'anemo': 'crates/anemo', 'anemo-tower': 'crates/anemo-tower', 'anemo-build': 'crates/anemo-build'}
+CRATES = {'anemo': 'crates/anemo', 'anemo-tower': 'crates/anemo-tower', 'anemo-build': 'crates/anemo-build', 'examples': 'crates/examples'}
 _loaded = {}
 
 
